@@ -162,7 +162,7 @@ impl<T> Drop for Arc<T> {
 
 /// Inline fixed-capacity queue (no heap: see the note on HeaderMap in shims/http).
 /// Exceeding QCAP elements is reported as a model-capacity assertion, never silently.
-pub const QCAP: usize = 8;
+pub const QCAP: usize = 4;
 pub struct VecDeque<T> {
     items: [Option<T>; QCAP],
     len: usize,
